@@ -173,6 +173,40 @@ class Unit:
 class Program:
     """All analysed units together."""
 
+    @classmethod
+    def from_files(cls, paths, flt="coloquinte", extra_flags=()):
+        """A small stand-alone program (self-test positive controls, pybind stub build)."""
+        self = cls.__new__(cls)
+        self.log = lambda *a: None
+        self.unbuilt_on_disk = []
+        self.unit_names = [os.path.basename(p) for p in paths]
+        self.info = {"flags": [], "flags_origin": "selftest", "tree_hash": "", "dump_wall_s": 0}
+        self.units = []
+        for p in paths:
+            u = Unit.__new__(Unit)
+            u.name = os.path.basename(p)
+            u.path = frontend.dump_file(p, flt, extra_flags)
+            u.objs = frontend.load_dump(u.path)
+            u.by_id = {}
+            u.main_file = p
+            self.units.append(u)
+        self._init_tables()
+        for u in self.units:
+            self._index_unit(u)
+        self._link_methods()
+        return self
+
+    def _init_tables(self):
+        self.funcs = {}
+        self.funcs_by_q = {}
+        self.decl_only = {}
+        self.records = {}
+        self.enums = {}
+        self.static_methods = {}
+        self.globals = []
+        self.all_lambdas = []
+        self._seen_decl_pos = set()
+
     def __init__(self, unit_names=None, log=None):
         self.log = log or (lambda *a: None)
         built = frontend.cmake_sources()
@@ -189,15 +223,7 @@ class Program:
         self.unit_names = names
         paths, self.info = frontend.dump_units(names)
         self.units = [Unit(n, paths[n]) for n in names]
-        self.funcs = {}          # key -> Func (with body)
-        self.funcs_by_q = {}     # qualified name -> [Func]
-        self.decl_only = {}      # qualified name -> [decl] (no body anywhere)
-        self.records = {}        # qualified name -> {'fields': {name: FieldDecl}, 'decl':..}
-        self.enums = {}          # qualified name -> [(enumerator name, value index)]
-        self.static_methods = {}
-        self.globals = []        # VarDecl at namespace/class scope (with unit)
-        self.all_lambdas = []
-        self._seen_decl_pos = set()
+        self._init_tables()
         for u in self.units:
             self._index_unit(u)
         self._link_methods()
